@@ -11,6 +11,6 @@ partial def loop (h : IO.FS.Stream) : IO Unit := do
   if line.isEmpty then pure () else
     match line.trimAscii.toString.splitOn " " with
     | [a, b] => IO.println (if isoRef (parseG a) (parseG b) then "True" else "False")
-    | _ => IO.println "bad"
+    | _ => IO.println "bad-op"
     loop h
 def main : IO Unit := do loop (← IO.getStdin)
